@@ -851,6 +851,13 @@ pub fn run_c18(sink: &mut dyn Sink) {
     // tuples and fixed arrays nested in sequences and maps (the break of an inner container must never end the outer one)
     shared(sink, "Vec<(u8,u8)>", vec![vec![(1u8, 2u8), (3, 4)], vec![(24, 255)]]);
     shared(sink, "Vec<[u8;2]>", vec![vec![[1u8, 2], [3, 4], [5, 6]]]);
+    // maps nested in sequences and in maps (an unread break of the inner container shifts the outer one)
+    shared(sink, "Vec<BTreeMap<u8,u8>>", vec![vec![], vec![[(1u8, 2u8)].into_iter().collect::<BTreeMap<_, _>>(), [(3u8, 4u8), (24, 5)].into_iter().collect()], vec![BTreeMap::new(), BTreeMap::new()]]);
+    shared(sink, "BTreeMap<u8,BTreeMap<u8,u8>>", vec![[(1u8, [(2u8, 3u8)].into_iter().collect::<BTreeMap<_, _>>()), (4, [(5u8, 6u8)].into_iter().collect())].into_iter().collect::<BTreeMap<_, _>>()]);
+    shared(sink, "BTreeMap<u8,Vec<u8>>", vec![[(1u8, vec![1u8, 2]), (2, vec![3, 4])].into_iter().collect::<BTreeMap<_, _>>()]);
+    shared(sink, "Vec<Vec<u8>>", vec![vec![vec![1u8, 2], vec![3, 4]], vec![vec![], vec![]]]);
+    shared(sink, "(BTreeMap<u8,u8>,u8)", vec![([(1u8, 2u8)].into_iter().collect::<BTreeMap<_, _>>(), 7u8)]);
+    shared(sink, "Option<BTreeMap<u8,u8>>", vec![None, Some([(1u8, 2u8)].into_iter().collect::<BTreeMap<_, _>>())]);
     shared(sink, "BTreeMap<u8,(u8,u8)>", vec![[(1u8, (2u8, 3u8)), (4, (5, 6))].into_iter().collect::<BTreeMap<_, _>>()]);
     shared(sink, "(Vec<u8>,(u8,),[u8;1])", vec![(vec![1u8, 2], (3u8,), [4u8])]);
     shared(sink, "Option<(u8,Vec<(u8,bool)>)>", vec![Some((1u8, vec![(2u8, true), (3, false)]))]);
